@@ -138,6 +138,38 @@ mutant('C04', 'no-previous-for-partial-struct', 'frappy/protocol/dispatcher.py',
 mutant('C04', 'string-maxchars-off-by-one', 'frappy/datatypes.py',
        "        if size > self.maxchars:\n            raise RangeError(\n                f'{shortrepr(value)} must be at most {self.maxchars} chars long!')",
        "        if size > self.maxchars + 1:\n            raise RangeError(\n                f'{shortrepr(value)} must be at most {self.maxchars} chars long!')")
+# ---------------------------------------------------------------- C11
+mutant('C11', 'no-pending-lock', 'frappy/client/__init__.py',
+       "            with self._pending_lock:\n                # the check and the parking must be one step for the rx thread",
+       "            if True:\n                # the check and the parking must be one step for the rx thread")
+mutant('C11', 'pending-not-requeued', 'frappy/client/__init__.py',
+       "                        self.txq.put(self.pending.get())", "                        self.pending.get()")
+mutant('C11', 'error-reply-not-mapped', 'frappy/client/__init__.py',
+       "                            key = REQUEST2REPLY[action[len(ERRORPREFIX):]], ident",
+       "                            key = action[len(ERRORPREFIX):], ident")
+mutant('C11', 'cleanup-ignored', 'frappy/client/__init__.py',
+       "                while self.cleanup:\n                    entry = self.cleanup.pop()",
+       "                while False:\n                    entry = self.cleanup.pop()")
+mutant('C11', 'cleanup-iterates-live-dict', 'frappy/client/__init__.py',
+       "                    with self._pending_lock:  # the tx thread inserts into active_requests\n                        for key, prev in list(self.active_requests.items()):",
+       "                    if True:\n                        for key, prev in self.active_requests.items():")
+mutant('C11', 'connect-forgets-waiters', 'frappy/client/__init__.py',
+       "            try:\n                while self.active_requests:\n                    _, (_, event, _) = self.active_requests.popitem()\n                    event.set()\n            except KeyError:\n                pass\n            self.txq = queue.Queue(30)",
+       "            self.active_requests.clear()\n            self.txq = queue.Queue(30)")
+mutant('C11', 'waiters-not-released', 'frappy/client/__init__.py',
+       "            while self.active_requests:\n                _, (_, event, _) = self.active_requests.popitem()\n                event.set()\n        except KeyError:\n            pass\n        try:\n            while True:\n                _, event, _ = self.pending.get(block=False)",
+       "            while self.active_requests:\n                _, (_, event, _) = self.active_requests.popitem()\n        except KeyError:\n            pass\n        try:\n            while True:\n                _, event, _ = self.pending.get(block=False)")
+mutant('C11', 'disconnect-unguarded-join', 'frappy/client/__init__.py',
+       "        txthread = self._txthread\n        if txthread and txthread != current_thread():\n            self.txq.put(None)  # shutdown marker\n            txthread.join()",
+       "        if self._txthread:\n            self.txq.put(None)  # shutdown marker\n            self._txthread.join()")
+mutant('C11', 'reply-to-first-active', 'frappy/client/__init__.py',
+       "                    key = action, ident\n                    entry = self.active_requests.pop(key)",
+       "                    key = next((k for k in self.active_requests if k and k[0] == action), (action, ident))\n                    entry = self.active_requests.pop(key)")
+mutant('C11', 'timeout-20s', 'frappy/client/__init__.py',
+       "        if not entry[1].wait(10):  # event", "        if not entry[1].wait(20):  # event")
+mutant('C11', 'tx-thread-not-stopped', 'frappy/client/__init__.py',
+       "            self.txq.put(None)  # shutdown marker\n            txthread.join()",
+       "            pass")
 
 
 def run_mutant(prop, name, file, old, new, runs, extra):
